@@ -32,7 +32,7 @@ func init() {
 					ok := false
 					for _, c := range callsIn(fn) {
 						if isCallTo(c, kNewParams) {
-							a := c.Common().Args
+							a := callArgs(c)
 							ok = strings.Contains(desc(a[5]), "SquareCount") && strings.Contains(desc(a[6]), ".Ld(")
 						}
 					}
@@ -103,7 +103,7 @@ func minLm(P *Program) int64 {
 				return
 			}
 			fa, ok := st.Addr.(*ssa.FieldAddr)
-			if !ok || typeKey(fa.X.Type()) != "gabikeys.BaseParameters" || fieldName(fa.X.Type(), fa.Field) != "Lm" {
+			if !ok || faType(fa) != "gabikeys.BaseParameters" || faName(fa) != "Lm" {
 				return
 			}
 			if c, ok := constInt(st.Val); ok && (min == 0 || c < min) {
@@ -131,7 +131,7 @@ func orderAgreementRule(P *Program, R *Report) {
 			outer := loopOver(fn, is(dpb+".attributes"))
 			inner := loopOver(fn, is(dpb+".rpStructures[#i]"))
 			R.decide(rule, kDPBCommit+":outer-ascending", "indices are visited ascending (index loop over the attribute list, not map iteration)", outer != nil && outer.Body[cfs.Block()], "", P.Pos(cfs.Pos()))
-			R.decide(rule, kDPBCommit+":inner-slice-order", "per index the structures are visited in slice order", inner != nil && inner.Body[cfs.Block()] && desc(cfs.Call.Args[0]) == dpb+".rpStructures[#i][#j]", desc(cfs.Call.Args[0]), P.Pos(cfs.Pos()))
+			R.decide(rule, kDPBCommit+":inner-slice-order", "per index the structures are visited in slice order", inner != nil && inner.Body[cfs.Block()] && desc(callArgs(cfs)[0]) == dpb+".rpStructures[#i][#j]", desc(callArgs(cfs)[0]), P.Pos(cfs.Pos()))
 			// contributions appended to the list in that order, commits recorded per index in the same order
 			okApp, okCommit := false, false
 			allInstrs(fn, func(i ssa.Instruction) {
@@ -139,12 +139,12 @@ func orderAgreementRule(P *Program, R *Report) {
 				if !ok || !isCallTo(c, "builtin:append") || c.Block() != cfs.Block() && !inner.Body[c.Block()] {
 					return
 				}
-				d := desc(c.Call.Args[1])
+				d := desc(callArgs(c)[1])
 				if d == desc(cfs)+"#0" {
 					okApp = true
 				}
-				if tail, ok := seqTail(c.Call.Args[1], 0, map[ssa.Value]bool{}); ok && len(tail) == 1 && tail[0].D == desc(cfs)+"#1" {
-					okCommit = desc(c.Call.Args[0]) == dpb+".rpCommits[#i]"
+				if tail, ok := seqTail(callArgs(c)[1], 0, map[ssa.Value]bool{}); ok && len(tail) == 1 && tail[0].D == desc(cfs)+"#1" {
+					okCommit = desc(callArgs(c)[0]) == dpb+".rpCommits[#i]"
 				}
 			})
 			R.decide(rule, kDPBCommit+":appended-in-order", "each structure's contributions are appended to the commitment list as it is visited", okApp, "", P.Pos(cfs.Pos()))
@@ -160,14 +160,14 @@ func orderAgreementRule(P *Program, R *Report) {
 			if !isC || !isCallTo(c, "builtin:append") {
 				return
 			}
-			tail, okT := seqTail(c.Call.Args[1], 0, map[ssa.Value]bool{})
+			tail, okT := seqTail(callArgs(c)[1], 0, map[ssa.Value]bool{})
 			if !okT || len(tail) != 1 || !strings.HasPrefix(tail[0].D, "call:rangeproof.(*ProofStructure).BuildProof(") {
 				return
 			}
-			got = tail[0].D + " -> " + desc(c.Call.Args[0])
+			got = tail[0].D + " -> " + desc(callArgs(c)[0])
 			key := "rangekey(" + dpb + ".rpStructures)"
 			ok = tail[0].D == "call:rangeproof.(*ProofStructure).BuildProof("+dpb+".rpStructures[*][#j],"+dpb+".rpCommits["+key+"][#j],arg#1)" &&
-				desc(c.Call.Args[0]) == "makemap["+key+"]"
+				desc(callArgs(c)[0]) == "makemap["+key+"]"
 		})
 		R.decide(rule, kDPBCreateProof+":proofs-in-structure-order", "RangeProofs[index][i] is built from structure i and commit i of that index", ok, got, P.Pos(fn.Pos()))
 	}
@@ -180,7 +180,7 @@ func orderAgreementRule(P *Program, R *Report) {
 			for _, ins := range outer.Header.Instrs {
 				if b, ok := ins.(*ssa.BinOp); ok && b.Op == token.LSS {
 					if c, ok := b.Y.(*ssa.Call); ok && isCallTo(c, "builtin:len") {
-						if sc, ok := c.Call.Args[0].(*ssa.Call); ok && sortedKeysOf(sc) != nil && desc(sortedKeysOf(sc)) == pdRP {
+						if sc, ok := callArgs(c)[0].(*ssa.Call); ok && sortedKeysOf(sc) != nil && desc(sortedKeysOf(sc)) == pdRP {
 							sorted = true
 						}
 					}
@@ -189,7 +189,7 @@ func orderAgreementRule(P *Program, R *Report) {
 		}
 		for _, c := range callsIn(fn) {
 			if isCallTo(c, "sort.Ints") && outer != nil {
-				if seq, ok := seqOf(c.Common().Args[0]); ok && seqString(seq) == "[(rangekey("+pdRP+"))*]" {
+				if seq, ok := seqOf(callArgs(c)[0]); ok && seqString(seq) == "[(rangekey("+pdRP+"))*]" {
 					// the sort is executed on every path into the loop
 					call := c
 					r := (&MustPass{P: P, Instr: func(_ *ssa.Function, i ssa.Instruction) bool { return i == ssa.Instruction(call.(*ssa.Call)) }}).MustReach(fn, outer.Header.Instrs[0])
@@ -211,7 +211,7 @@ func orderAgreementRule(P *Program, R *Report) {
 			for _, c := range callsIn(g) {
 				if isCallTo(c, kRPCFP) {
 					cfp = c.(*ssa.Call)
-					okArgs = desc(cfp.Call.Args[0]) == "<gabi.ProofD>.cachedRangeStructures[makeslice[#i]][#j]" && desc(cfp.Call.Args[2]) == pdRP+"[makeslice[#i]][#j]"
+					okArgs = desc(callArgs(cfp)[0]) == "<gabi.ProofD>.cachedRangeStructures[makeslice[#i]][#j]" && desc(callArgs(cfp)[2]) == pdRP+"[makeslice[#i]][#j]"
 				}
 			}
 		})
@@ -227,7 +227,7 @@ func orderAgreementRule(P *Program, R *Report) {
 				if !isC || !isCallTo(c, "builtin:append") {
 					return
 				}
-				if tail, okT := seqTail(c.Call.Args[1], 0, map[ssa.Value]bool{}); okT && len(tail) == 1 && strings.HasPrefix(tail[0].D, "call:"+kExtract+"("+pdRP+"[*][#j],") {
+				if tail, okT := seqTail(callArgs(c)[1], 0, map[ssa.Value]bool{}); okT && len(tail) == 1 && strings.HasPrefix(tail[0].D, "call:"+kExtract+"("+pdRP+"[*][#j],") {
 					ok = true
 				}
 			})
@@ -243,7 +243,7 @@ func orderAgreementRule(P *Program, R *Report) {
 		var seq []string
 		for _, c := range callsIn(f) {
 			if strings.HasPrefix(calleeName(c), "zkproof.(*QrRepresentationProofStructure).CommitmentsFrom") {
-				seq = append(seq, strings.TrimPrefix(desc(c.Common().Args[0]), rpS+"."))
+				seq = append(seq, strings.TrimPrefix(desc(callArgs(c)[0]), rpS+"."))
 			}
 		}
 		R.decide(rule, k+":order", "contributions are mCorrect first, then cRep[0..n) in order", strings.Join(seq, ",") == "mCorrect,cRep[#i]", strings.Join(seq, ","), P.Pos(f.Pos()))
@@ -269,7 +269,7 @@ func sizeAgreementRule(P *Program, R *Report) {
 		for _, s := range sinksOf(fn) {
 			if strings.HasSuffix(s.target, suf) {
 				if g := genCallOf(s.val); g != nil {
-					a, _ := affineOf(g.Call.Args[0])
+					a, _ := affineOf(callArgs(g)[0])
 					got = a.String()
 					ok = got == parseAffine(w).String()
 				}
@@ -342,7 +342,7 @@ func statementFilingRule(P *Program, R *Report) {
 	var app *ssa.Call
 	allInstrs(fn, func(i ssa.Instruction) {
 		c, ok := i.(*ssa.Call)
-		if ok && isCallTo(c, "builtin:append") && desc(c.Call.Args[0]) == nbD+".rpStructures["+key+"]" {
+		if ok && isCallTo(c, "builtin:append") && desc(callArgs(c)[0]) == nbD+".rpStructures["+key+"]" {
 			app = c
 		}
 	})
@@ -350,7 +350,7 @@ func statementFilingRule(P *Program, R *Report) {
 		R.bad(rule, kCredBuilder+":filed", "structures are filed under the statement's attribute index", "no append to rpStructures[index]", P.Pos(fn.Pos()))
 		return
 	}
-	tail, _ := seqTail(app.Call.Args[1], 0, map[ssa.Value]bool{})
+	tail, _ := seqTail(callArgs(app)[1], 0, map[ssa.Value]bool{})
 	stmt := "arg#2[*][#j]"
 	ok := len(tail) == 1 && (tail[0].D == "call:rangeproof.(*Statement).ProofStructure("+stmt+","+key+")#0" ||
 		tail[0].D == "call:rangeproof.NewProofStructure("+key+","+stmt+".Sign,"+stmt+".Factor,"+stmt+".Bound,"+stmt+".Splitter)#0")
@@ -358,7 +358,7 @@ func statementFilingRule(P *Program, R *Report) {
 	r := (&MustPass{P: P, Match: func(a Atom) bool {
 		// the index is not contained in the disclosed list (tested here or in a helper such as isUndisclosedAttribute)
 		c, okc := callAtom(a, False, "slices.Contains")
-		return okc && desc(c.Call.Args[0]) == "arg#1" && desc(c.Call.Args[1]) == key
+		return okc && desc(callArgs(c)[0]) == "arg#1" && desc(callArgs(c)[1]) == key
 	}}).MustReach(fn, app)
 	R.decide(rule, kCredBuilder+":hidden-only", "a range statement is accepted only for an attribute that is not disclosed", r.Holds, r.Path, P.Pos(app.Pos()))
 	if iu := P.Func("gabi.isUndisclosedAttribute"); iu != nil {
